@@ -121,6 +121,8 @@ def s_gv(draw, sps_max=128, with_extra=False, noncommensurate=False):
     # a slot count N may be in force: "match" = N*sps equals the length of the signal under test (sps becomes a divisor of it),
     # "other" = some unrelated N, None = no N
     cfg["Nmode"] = draw(st.sampled_from([None, None, None, "match", "match", "other"]))
+    # the slot rate as the number types a script hands over: float, Python int, numpy integer (rates taken from an integer array)
+    cfg["Rtype"] = draw(st.sampled_from(["float", "float", "float", "int", "np.int64"]))
     if with_extra:
         cfg["wavelength"] = draw(st.one_of(st.none(), st.floats(1260e-9, 1650e-9)))
     return cfg
@@ -139,6 +141,8 @@ def apply_gv(cfg, n_samples=None):
         Nslots = 1 + (int(R) + sps) % 37
     else:
         Nslots = None
+    if cfg.get("Rtype") in ("int", "np.int64") and float(R).is_integer() and not cfg["form"].endswith("_nc"):
+        R = int(R) if cfg["Rtype"] == "int" else np.int64(int(R))
     fs = R * sps
     kw = {}
     if cfg.get("wavelength"):
